@@ -100,12 +100,12 @@ Definition fcompare (a b : f32) : f32 :=
 Definition fmax_choice (a b : f32) : f32 * choice :=
   if fgtb a b then (a, CLeft)
   else if fgtb b a then (b, CRight)
-  else (if is_nanb a || is_nanb b then fnan else b, CBoth).
+  else (if is_nanb a || is_nanb b then fnan else if negb (signb a) then a else b, CBoth).
 
 Definition fmin_choice (a b : f32) : f32 * choice :=
   if fltb a b then (a, CLeft)
   else if fltb b a then (b, CRight)
-  else (if is_nanb a || is_nanb b then fnan else b, CBoth).
+  else (if is_nanb a || is_nanb b then fnan else if signb a then a else b, CBoth).
 
 Definition fand_choice (a b : f32) : f32 * choice :=
   if is_zerob a then (a, CLeft) else (b, CRight).
